@@ -12,3 +12,9 @@ ENGINES = [
 NOTES = "See DESIGN.md. ./check <ID> --tier quick|thorough ; exit 0 held / 1 VIOLATION / 2 machinery failure. known_findings.json lists genuine defects recorded rather than repaired."
 NOT_APPLICABLE = {}
 CHECKS = {}
+
+CHECKS["C17"] = dict(
+    technique="TLA+ alias-structure model of columnfile (specs/Columnfile.tla) model-checked by TLC; every explored transition replayed on the real object (behaviour replay, spec -> code)",
+    text="TLC explores every sequence of the 20 modelled columnfile operations (addcolumn/setcolumn/__setitem__/__setattr__ scalar+array/in-place/filter/removerows/sortby/reorder/copy/copyrows mask+index+slice/get_bigarray/set_bigarray list+ndarray/user writes through a kept reference) to depth 3 (quick) / 4 with replay and 5 invariants-only (thorough), checking Rectangular, ViewsAgree, SameStorage, CopiesDisjoint and the action property RowOpsUniform on a model whose state is the alias structure (buffers, __data, attributes, list/array mode). Every transition TLC generates (representative path of each distinct state + one operation) and thousands of simulated behaviours of depth 9-13 are executed on a real columnfile started four ways; contents of all views, nrows/ncols/titles, list/array mode and the canonical memory-region numbering of every array must equal the model state, and the property clauses are also judged directly on the real object. BUG_* configurations show TLC finding each of the four repaired defects; the AllowAlias configuration finds the recorded aliasing finding, which is replayed and matched structurally.",
+    note="Trusted: the projection in harness/props/c17.py (memory regions via __array_interface__/np.shares_memory), numpy, TLC. Bounds: 3 titles, <=3 rows, values 0..2 as float64; PandasColumnfile not covered (pandas absent). Beyond the depth bound behaviours are sampled (-simulate), not enumerated.",
+)
